@@ -213,8 +213,14 @@ def run(ctx):
             between = [w_.ntd(1, 2, 4242), w_.exd(1, 4343), w_.tpid(1, 4444), w_.thd(1, 4545, 1), w_.term(1, 2)] + \
                 ([w_.known(0, 1, name=rnd.choice(w_.trace_known))] if w_.trace_known else [])
             rnd.shuffle(between)
-            t2 = pr.render(name, S, E, [], nested=between[:rnd.choice([1, 3, 6])])
-            nbetween += 1
+            n0 = w_.ntd(1, 2, 4242)
+            n0.words = (n0.words[0], n0.words[1], 0, n0.words[3])          # a genuine new thread (not the copy made by exec)
+            t2 = base
+            for var in ([n0], [w_.exd(1, 4343)], between[:rnd.choice([3, 6])]):
+                nbetween += 1
+                t2 = pr.render(name, S, E, [], nested=var)
+                if t2 != base:
+                    break
             if base is not None and t2 != base:
                 ctx.violation('C10/records-between-change-result@%s' % name, '%s with END %s reads %r; with announcement / terminate / sampler records of the thread between START and END it reads %r'
                               % (name, [hex(x) for x in E], base, t2),
